@@ -1361,6 +1361,34 @@ fn eof(input: &str) -> (&str, LexedToken<'_>) {
 
 // endregion: special tokens
 
+/// Verification hooks: thin public wrappers around the identifier-scanning routines so that a
+/// test harness can compare the CPU-specific routine with the portable one directly.
+#[cfg(feature = "verif_hooks")]
+pub mod verif_hooks {
+    /// The portable routine.
+    pub fn identifier_end_generic(input: &str, offset: usize) -> usize {
+        super::find_identifier_end_generic(input, offset)
+    }
+
+    /// The AVX2 routine, or `None` when the CPU (or target) does not support it.
+    pub fn identifier_end_avx2(input: &str, offset: usize) -> Option<usize> {
+        #[cfg(target_arch = "x86_64")]
+        {
+            if is_x86_feature_detected!("avx2") {
+                // SAFETY: avx2 support was just checked.
+                return Some(unsafe { super::find_identifier_end_avx2(input, offset) });
+            }
+        }
+        let _ = (input, offset);
+        None
+    }
+
+    /// Whatever routine the lexer selects at run time.
+    pub fn identifier_end_dispatch(input: &str, offset: usize) -> usize {
+        super::find_identifier_end(input, offset)
+    }
+}
+
 #[cfg(test)]
 mod tests {
     use super::*;
